@@ -18,6 +18,7 @@ def genRaw : RawFacts :=
     natives := C18.natives, equalVia := C18.equalVia,
     listAddAcceptsFrozen := C18.listAddAcceptsFrozen, frozenListEmbedsList := C18.frozenListEmbedsList,
     frozenListMethods := C18.frozenListMethods,
+    sortedReverse := C16.sortedReverse, sortedSortFns := C16.sortedSortFns,
     opsCompare := C16.opsCompare, opsRestCalls := C16.opsRestCalls, opsRecheck := C16.opsRecheck }
 
 /-- The asp model at the regenerated facts. -/
